@@ -11,6 +11,10 @@ pub mod space;
 
 use vharness::json::{esc, obj};
 
+/// Largest number of samples in a case handed to the extracted Coq model (its integers are
+/// binary inductives: a 65535-sample constant block of a few bytes would cost it minutes).
+pub const MODEL_MAX_SAMPLES: usize = 12000;
+
 pub fn profile() -> &'static str {
     if cfg!(debug_assertions) { "debug" } else { "release" }
 }
